@@ -98,6 +98,12 @@ func (g *Gateway) newSubscriptionEntry(id string, ctx *planner.PlanningContext) 
 				}
 			}
 
+			// nothing to stitch into: the event's field is null or an empty list
+			if len(newRootSteps) == 0 {
+				plan.ScrubFields.Clean(initialResult)
+				return initialResult, nil
+			}
+
 			result, err := g.executor.Execute(&executor.ExecutionContext{
 				QueryPlan: &planner.QueryPlan{
 					RootSteps:   newRootSteps,
